@@ -81,8 +81,8 @@ func str1() func(*gen, int) []alt    { return constAlts("s") }
 func floatAlts() func(*gen, int) []alt {
 	return constAlts(num("0"), num("1.5"), num("-1"))
 }
-func intAlts() func(*gen, int) []alt    { return constAlts(num("0"), num("3")) }
-func trueAlt() func(*gen, int) []alt    { return constAlts(true) }
+func intAlts() func(*gen, int) []alt     { return constAlts(num("0"), num("3")) }
+func trueAlt() func(*gen, int) []alt     { return constAlts(true) }
 func strListAlts() func(*gen, int) []alt { return constAlts(arr("a"), arr("a", "b c")) }
 
 // free-form payloads: the first two are free, the others cost 1.
